@@ -23,6 +23,48 @@ def toEntry (l : List Rat) : R (Nat × Nat × Rat) :=
     else pure (s.num.toNat, p.num.toNat, d)
   | _ => throw "entry needs three numbers"
 
+/-- flat prefix encoding of a refinement recipe: 0 | 1 s l r | 2 r | 3 u v r1 r2 r3 | 4 r1 r2 r3 r4 -/
+def parseRef : Nat → List Rat → Option (Ref × List Rat)
+  | 0, _ => none
+  | _, [] => none
+  | f + 1, tag :: rest =>
+    if tag = 0 then some (.leaf, rest)
+    else if tag = 1 then
+      match rest with
+      | s :: rest => do
+        let (l, r1) ← parseRef f rest
+        let (r, r2) ← parseRef f r1
+        pure (.edge s l r, r2)
+      | _ => none
+    else if tag = 2 then do
+      let (r, r1) ← parseRef f rest
+      pure (.rot r, r1)
+    else if tag = 3 then
+      match rest with
+      | u :: v :: rest => do
+        let (a, r1) ← parseRef f rest
+        let (b, r2) ← parseRef f r1
+        let (c, r3) ← parseRef f r2
+        pure (.centre u v a b c, r3)
+      | _ => none
+    else if tag = 4 then do
+      let (a, r1) ← parseRef f rest
+      let (b, r2) ← parseRef f r1
+      let (c, r3) ← parseRef f r2
+      let (e, r4) ← parseRef f r3
+      pure (.red a b c e, r4)
+    else none
+
+def toRef (l : List Rat) : R Ref :=
+  match parseRef (l.length + 1) l with
+  | some (r, []) => pure r
+  | _ => throw "bad recipe"
+
+def toTri (l : List Rat) : R Tri :=
+  match l with
+  | [ax, ay, bx, b_y, cx, cy] => pure ⟨(ax, ay), (bx, b_y), (cx, cy)⟩
+  | _ => throw "triangle needs six numbers"
+
 def ofMat (A : Mat) : Json :=
   obj [("shape", ofNats [A.r, A.c]), ("rows", ofList ofRats A.rows)]
 
@@ -35,6 +77,12 @@ def dump (st : St) : Json :=
 def stepOne (st : Option St) (j : Json) : R (Option St × Json) := do
   let op ← fStr j "op"
   match op, st with
+  | "match2d", _ =>
+    let parents ← (← fRatss j "parents").mapM toTri
+    let recipes ← (← fRatss j "recipes").mapM toRef
+    pure (st, obj [("averaged", ofMat (match2dNested parents recipes .averaged)),
+                   ("integrated", ofMat (match2dNested parents recipes .integrated)),
+                   ("areas2", ofRats ((kidsFrom 0 parents recipes).map fun x => area2 x.2))])
   | "init", _ =>
     let nsides ← fNat j "nsides"
     let numCells ← fNat j "num_cells"
